@@ -28,7 +28,7 @@ ASSUMPTIONS = ['the reference result of a page is the one obtained from a freshl
                'transcriptions compared exactly, confidences within 1e-12', 'stub OCR network and toy LM as in C07 / C03']
 N = {'quick': 72, 'thorough': 4000}
 CLASSES = ['beam_nolm', 'lm_nocarry', 'lm_carry', 'lm_carry', 'greedy', 'lm_carry_threshold', 'page_parser', 'lm_carry', 'layout_history', 'lm_carry', 'layout_history', 'beam_nolm', 'stage_history']
-REQUIRED = ['stage_history_pages', 'pages_in_a_folder_vs_alone', 'pages_under_a_limit_that_others_exceed', 'given_line_pages', 'layout_history_pages', 'layout_pages_without_upright_lines', 'histories', 'page_results_compared', 'pages_after_other_page', 'repeated_pages', 'carry_lines_decoded', 'lines_reprimed_from_last_line', 'confident_lines_skipped',
+REQUIRED = ['direct_decode_line_calls_between_pages', 'pages_after_an_interrupted_page', 'layout_histories_with_two_scan_sizes_sharing_a_padded_size', 'stage_history_pages', 'pages_in_a_folder_vs_alone', 'pages_under_a_limit_that_others_exceed', 'given_line_pages', 'layout_history_pages', 'layout_pages_without_upright_lines', 'histories', 'page_results_compared', 'pages_after_other_page', 'repeated_pages', 'carry_lines_decoded', 'lines_reprimed_from_last_line', 'confident_lines_skipped',
             'page_parser_pages', 'process_pairs_compared', 'resume_runs_compared']
 KNOWN_DS = 'adaptive down-sampling factor carried over from the previous page'
 LETTERS = list('abc')
@@ -247,6 +247,26 @@ def check(case, mon, ctx):
         seen = set()
         for pos, p in enumerate(seq):
             pl = copy.deepcopy(pages[p])
+            other = [l for l in copy.deepcopy(pages[(p + 1) % 4]).lines_iterator()]
+            if other and (pos + len(seq)) % 3 == 1:
+                # a single line of another page is decoded directly on the instance before this page arrives
+                try:
+                    inst.decode_line(other[0])
+                    mon.count('direct_decode_line_calls_between_pages')
+                except Exception:
+                    pass
+            elif len(other) >= 2 and (pos + len(seq)) % 3 == 2:
+                # the previous page was interrupted after its first line (Ctrl-C, a worker being stopped): the instance stays in use
+                class Interrupted:
+                    id = 'interrupted'
+
+                    def lines_iterator(self):
+                        yield other[0]
+                        raise KeyboardInterrupt()
+                try:
+                    inst.process_page(Interrupted())
+                except KeyboardInterrupt:
+                    mon.count('pages_after_an_interrupted_page')
             del ctx.events[:]
             inst.process_page(pl)
             got = result_of(pl)
@@ -581,6 +601,20 @@ def check_layout_history(case, mon, ctx):
         img = ctx.stubs.stroke_image(hl, vl, H=Hh, W=Ww, asc=int(rng.integers(8, 18)), desc=int(rng.integers(3, 8)), vthick=2)
         img[:, :, :] = np.maximum(img, (rng.integers(0, 20, size=(Hh, Ww, 1))).astype(np.uint8) * (img[:, :, 2:3] == 0))   # faint texture, same in all channels
         pages.append((kind, img))
+    if not o.get('given_lines') and not o.get('low_megapixel_limit'):
+        # (round 7) a slightly smaller scan (580 x 780) whose network input is padded to the same size as that of the 600 x 800 pages; its bottom line ends at
+        # the right page edge, where the first page has ink that continues beyond x = 780
+        y0 = 550
+        kind0, img0 = pages[0]
+        img0 = img0.copy()
+        img0[y0 - 2:y0 + 2, 560:800, 2] = 255
+        img0[y0 - 8:y0 + 8, 560:800, 0] = int(255 * 12 / 40)
+        img0[y0 - 8:y0 + 8, 560:800, 1] = int(255 * 4 / 20)
+        pages[0] = (kind0, img0)
+        small = ctx.stubs.stroke_image([(120, 60, 500), (y0, 300, 780)], [], H=580, W=780, asc=12, desc=4, vthick=2)
+        pages.append(('smaller_scan', small))
+        case = dict(case, sequences=list(case['sequences']) + [[0, 4], [4, 0, 4, 1]])
+        mon.count('layout_histories_with_two_scan_sizes_sharing_a_padded_size')
 
     given = None
     if o.get('given_lines'):
@@ -628,7 +662,7 @@ def check_layout_history(case, mon, ctx):
         return [(r.id, l.id, np.round(np.asarray(l.baseline, dtype=np.float64), 3).tolist(), [round(float(h), 3) for h in l.heights], l.transcription,
                  None if l.transcription_confidence is None else round(float(l.transcription_confidence), 9)) for r in pl.regions for l in r.lines]
     ref = []
-    for p in range(4):
+    for p in range(len(pages)):
         ps = fresh(); ref.append(run(ps, p)); close(ps)
     if given is None and (isinstance(ref[0], str) or not ref[0]):
         mon.inconclusive_because('layout-history leg: the reference run of the upright page found no lines or raised: %r' % (ref[0] if isinstance(ref[0], str) else 'no lines'))
